@@ -379,7 +379,7 @@ impl OrdinaryObject {
             if let Some(current_desc) = desc {
                 // i. If IsAccessorDescriptor(desc) is true, return desc.[[Get]].
                 return if current_desc.is_accessor_descriptor() {
-                    Ok(current_desc.expect_get().clone())
+                    Ok(current_desc.get().cloned().unwrap_or_default())
                 } else {
                     // ii. Return undefined.
                     Ok(JsValue::undefined())
@@ -425,7 +425,7 @@ impl OrdinaryObject {
             if let Some(current_desc) = desc {
                 // i. If IsAccessorDescriptor(desc) is true, return desc.[[Set]].
                 return if current_desc.is_accessor_descriptor() {
-                    Ok(current_desc.expect_set().clone())
+                    Ok(current_desc.set().cloned().unwrap_or_default())
                 } else {
                     // ii. Return undefined.
                     Ok(JsValue::undefined())
